@@ -325,6 +325,10 @@ fn check_cli(c: &Case, ctx: &Ctx) -> Outcome {
     if !c.rc {
         args.push("--single-strand");
     }
+    // "use all reads", spelled out: must be the same as leaving the option away
+    if (c.min_count as usize + m.reads.len()) % 4 == 0 {
+        args.extend(["--proportion-reads", if c.k % 4 == 1 { "1" } else { "1.0" }]);
+    }
     let o = run_ska(ctx, &dir, &args);
     let obs: Result<BTreeMap<Vec<u8>, u8>, String> = (|| {
         if let Some(e) = o.infra() {
